@@ -20,6 +20,7 @@ package influx
 import (
 	"bytes"
 	"errors"
+	"math"
 	"strconv"
 
 	"github.com/lindb/common/pkg/fasttime"
@@ -39,6 +40,7 @@ var (
 	ErrBadTags           = errors.New("bad_tags")
 	ErrBadFields         = errors.New("bad_fields")
 	ErrBadTimestamp      = errors.New("bad_timestamp")
+	ErrInfField          = errors.New("field_is_infinity")
 )
 
 var influxIngestionStatistics = metrics.NewInfluxIngestionStatistics()
@@ -293,9 +295,13 @@ WalkBeforeComma:
 			parsedFields []flatSimpleField
 		)
 		parsedFields, err = parseField(buf[startAt:equalAt], buf[equalAt+1:boundaryAt])
-		if err == nil {
+		switch {
+		case err == nil:
 			fields = append(fields, parsedFields...)
-		} else {
+		case errors.Is(err, ErrInfField):
+			// not an unsupported field to skip: the metric is invalid
+			return nil, err
+		default:
 			influxIngestionStatistics.DroppedFields.Incr()
 		}
 		startAt = boundaryAt + 1
@@ -338,6 +344,11 @@ func parseField(key, value []byte) ([]flatSimpleField, error) {
 				Type:  flatMetricsV1.SimpleFieldTypeLast,
 				Value: float64(0),
 			}}, nil
+		}
+		// Inf, +Inf, -inf ... end in f as well: an infinite field value invalidates the whole line,
+		// exactly like the spellings Infinity and NaN which reach the float branch below
+		if v, err := strconv.ParseFloat(strutil.ByteSlice2String(value), 64); err == nil && math.IsInf(v, 0) {
+			return nil, ErrInfField
 		}
 		return nil, ErrBadFields
 	default:
